@@ -944,6 +944,31 @@ def replay_witnesses(ctx):
                                             "C07_extended_refuted(K1 on date / Decimal / Path; apply_hash=False)"])
 
 
+# ---------------------------------------------------------------------------
+# source tie (DESIGN.md section 4.5), shared with c06: the serialiser regenerated from the current deephash.py
+# (harness/translate/deephashprep.py -> DDGen.HashGen) is proved equal to Hash/HashModel.v on every run
+# (coq/srctie/HashGenEquiv.v), and the injectivity theorems are restated about it (coq/srctie/HashGenEquivC07.v)
+# ---------------------------------------------------------------------------
+TIE_NAME = base.TIE_NAME
+SOURCE_TIES = [dict(base.SOURCE_TIES[0], equiv=["HashGenEquiv", "HashGenEquivC07"],
+                    needs=base.SOURCE_TIES[0]["needs"] + ["Properties.C07"])]
+
+
+def on_source_tie_break(ctx, name, rec):
+    """differing inputs of generated vs hand-written serialiser (c06.tie_difference) judged by this property's ordinary
+    correspondence (exact strings and table) and direct oracle (all pairs of the differencing universe: equal hash only for
+    equal canonical content).  A broken tie by itself calls neither ctx.fail nor ctx.break_."""
+    res, picked = base.tie_difference(ctx, rec)
+    if picked:
+        base.tie_correspondence(ctx, picked)
+        univ = [v for v in base.tie_universe() if _in_universe(v)]
+        for o in MODES3:
+            oracle_pool(ctx, univ, o, None, "sha256,source_tie")
+        res["replayed"] = len(picked)
+        res["oracle_pool"] = len(univ)
+    return res
+
+
 def run(ctx):
     rng = ctx.rng
     sys.setrecursionlimit(10000)
@@ -982,7 +1007,7 @@ def run(ctx):
     oracle_lazy(ctx)
     oracle_shared_temporaries(ctx)
     oracle_surrogates(ctx)
-    if ctx.thorough:
+    if ctx.thorough or ctx.tie_broken(TIE_NAME):      # a source tie that is not intact escalates the search
         for r in range(6):
             pool2 = build_pool(random.Random(rng.randrange(1 << 30)), 80, 620)[len(near_collisions()) + len(identity_shapes()) - 40:]
             base.corr_pattern(ctx, [v for v in pool2[:300] if not spells_digest(v)], MODES3, "c07_pattern_%d" % r)
